@@ -111,6 +111,13 @@ def main(argv):
     c.pre_steps = [build_replay]
 
     def replay(chk, h, o, ce):
+        if h.name == "h_cache_two_queries" and "key" not in o.get("desc", ""):
+            # an answer of the cached query: the native networks ask AnalyserModel::areEquivalentVariables for every pair, shuffled, twice
+            out = getattr(chk, "search_out", "")
+            m = re.search(r"SEARCH violates=1 what=(.*)", out)
+            if m:
+                return True, "real code: " + m.group(1)[:500], "search", {"search": out[:1000]}
+            return None, "the native random networks found no wrong answer (seed %d)" % chk.seed, None, {}
         if h.name == "h_key_injective":
             vals = [ce.get("in_" + k) for k in "abcd"]
         elif h.name == "h_cache_two_queries":
